@@ -34,6 +34,9 @@ type Loc struct {
 	// MustSetDefaults: attributes with a default always get an explicit value
 	// (the generated client cannot express "unset" for them)
 	MustSetDefaults bool
+	// PrintableASCII: the location only carries printable ASCII (gRPC
+	// metadata): enumerated values outside it are never chosen
+	PrintableASCII bool
 }
 
 // Body is the location of JSON body attributes.
@@ -206,7 +209,19 @@ func genValue(t *rapid.T, d *m.Design, a *m.Attr, loc Loc, depth int, stack []st
 	v := mergedValidation(chain)
 	k := res.Type.Kind
 	if len(v.Enum) > 0 {
-		return rapid.SampledFrom(v.Enum).Draw(t, "enum")
+		cands := v.Enum
+		if loc.PrintableASCII {
+			var ok []value.V
+			for _, e := range v.Enum {
+				if e.K != "string" || printable(e.S) {
+					ok = append(ok, e)
+				}
+			}
+			if len(ok) > 0 {
+				cands = ok
+			}
+		}
+		return rapid.SampledFrom(cands).Draw(t, "enum")
 	}
 	switch {
 	case k == m.Boolean:
@@ -394,6 +409,15 @@ func genString(t *rapid.T, v *m.Validation, loc Loc) string {
 		}
 	}
 	return stringOfLen(t, loc, lo, hi)
+}
+
+func printable(s string) bool {
+	for _, r := range s {
+		if r < 0x20 || r > 0x7e {
+			return false
+		}
+	}
+	return true
 }
 
 func isASCII(s string) bool {
